@@ -60,6 +60,10 @@ impl Visitor<StatementPos> for InstructionGenerator {
                 self.push(Instruction::Label(name), pos);
             }
             Statement::GoTo(name) => {
+                // leaving (or entering) FOR loops and SELECT CASE blocks
+                if let Some((for_depth, select_depth)) = self.label_depths.get(&name).copied() {
+                    self.adjust_stacks_for_jump(for_depth, select_depth, pos);
+                }
                 self.push(Instruction::Jump(AddressOrLabel::Unresolved(name)), pos);
             }
             Statement::GoSub(label) => {
@@ -86,6 +90,8 @@ impl Visitor<StatementPos> for InstructionGenerator {
                 );
             }
             Statement::Exit(_) => {
+                // leaving all FOR loops and SELECT CASE blocks of the function/sub
+                self.adjust_stacks_for_jump(0, 0, pos);
                 self.push(Instruction::PopRet, pos);
             }
             Statement::Comment(_) => {}
